@@ -1,34 +1,48 @@
 ------------------------------- MODULE Window -------------------------------
 (***************************************************************************)
 (* Code-shaped model of kolibrie::rsp::s2r::CSPARQLWindow (time-driven     *)
-(* tick, report strategy OnWindowClose [+ NonEmptyContent]) together with  *)
-(* the requirement C09 states about what a consumer observes.              *)
+(* tick, any list of report strategies) together with the requirement C09  *)
+(* states about what a consumer observes.                                  *)
 (*                                                                         *)
-(* One action, Add(t), is one call of add_to_window(item, t): scope(),     *)
-(* membership update / eviction, choice of the window to report, the       *)
-(* app_time guard.  Ghost variables: stream (timestamps pushed so far;     *)
-(* item i is the i-th push) and fired (what the consumer received).        *)
+(* One action, Add(id, t), is one call of add_to_window(item, t): scope(), *)
+(* membership update / eviction, Report::report for every active window    *)
+(* (strategies in list order, Iterator::all stops at the first that fails; *)
+(* windows in HashMap iteration order - any order here), choice of the     *)
+(* window to report, the app_time guard.  Ghost variables: stream / ids    *)
+(* (timestamps and items pushed so far) and fired (what the consumer       *)
+(* received).                                                              *)
+(*                                                                         *)
+(* A strategy is <<"close">> (OnWindowClose), <<"nonempty">>               *)
+(* (NonEmptyContent), <<"periodic", p>> (Periodic(p)) or <<"change">>      *)
+(* (OnContentChange: true iff the content equals the content this strategy *)
+(* saw last, which it then replaces - as the code does).                   *)
 (***************************************************************************)
-EXTENDS Naturals, Integers, Sequences, FiniteSets, TLC
+EXTENDS Naturals, Integers, Sequences, FiniteSets, SequencesExt, TLC
 
 CONSTANTS MaxTs,      \* timestamps are 0..MaxTs
           MaxLen,     \* stream length bound
           Widths,     \* set of widths explored
           Slides,     \* set of slides explored
-          NeModes,    \* subset of BOOLEAN: TRUE = report strategy additionally contains NonEmptyContent
+          Strategies, \* set of strategy lists explored
           FixEvict    \* TRUE: windows that have not opened yet survive eviction (the repaired code)
 
-VARIABLES width, slide, ne, active, appTime, stream, fired, flushed
-vars == <<width, slide, ne, active, appTime, stream, fired, flushed>>
+VARIABLES width, slide, strat, active, appTime, lastChange, stream, ids, fired, flushed
+vars == <<width, slide, strat, active, appTime, lastChange, stream, ids, fired, flushed>>
+
+Has(name) == \E i \in 1..Len(strat) : strat[i][1] = name
+ne == Has("nonempty")
+HasClose == Has("close")
+PlainClose == HasClose /\ \A i \in 1..Len(strat) : strat[i][1] \in {"close", "nonempty"}
 
 CeilDiv(a, b) == (a + b - 1) \div b
 Sat(x) == IF x < 0 THEN 0 ELSE x             \* f64 -> usize cast saturates at 0
+MaxOf(S) == CHOOSE x \in S : \A y \in S : y <= x
 
 \* scope(): the window opens considered for event time t (loop in scope())
 ScopeOpens(t) ==
   LET csup  == CeilDiv(t, slide) * slide
       first == csup - width
-  IN  {first} \cup {first + (k * slide) : k \in {j \in 1..(MaxTs + width) : first + (j * slide) <= t}}
+  IN  {first} \cup {first + (k * slide) : k \in {j \in 1..(((t - first) \div slide) + 1) : first + (j * slide) <= t}}
 
 Win(o) == [open |-> Sat(o), close |-> Sat(o + width), items |-> {}]
 Key(w) == <<w.open, w.close>>
@@ -36,24 +50,54 @@ Key(w) == <<w.open, w.close>>
 AfterScope(t) ==
   active \cup {Win(o) : o \in {p \in ScopeOpens(t) : \A w \in active : Key(w) # Key(Win(p))}}
 
-Reportable(w, t) == w.close <= t /\ (ne => w.items # {})
+\* ContentContainer::add: an item is kept once, with its latest timestamp
+AddItem(items, id, t) ==
+  LET old == {x \in items : x[1] = id}
+  IN  (items \ old) \cup {<<id, MaxOf({t} \cup {x[2] : x \in old})>>}
 
-Add(t) ==
+\* Report::report(window, content, t): [ok, lc]; lc = <<>> (the initial last_change: an empty container with another
+\* origin than any window's, equal to no content) or <<items>>
+RECURSIVE ReportOne(_, _, _, _)
+ReportOne(i, w, t, lc) ==
+  IF i > Len(strat) THEN [ok |-> TRUE, lc |-> lc]
+  ELSE LET s == strat[i] IN
+       CASE s[1] = "close"    -> IF w.close <= t THEN ReportOne(i + 1, w, t, lc) ELSE [ok |-> FALSE, lc |-> lc]
+         [] s[1] = "nonempty" -> IF w.items # {} THEN ReportOne(i + 1, w, t, lc) ELSE [ok |-> FALSE, lc |-> lc]
+         [] s[1] = "periodic" -> IF t % s[2] = 0 THEN ReportOne(i + 1, w, t, lc) ELSE [ok |-> FALSE, lc |-> lc]
+         [] OTHER             -> IF lc = <<w.items>> THEN ReportOne(i + 1, w, t, <<w.items>>) ELSE [ok |-> FALSE, lc |-> <<w.items>>]
+
+RECURSIVE EvalSeq(_, _, _, _)
+EvalSeq(sq, k, t, acc) ==
+  IF k > Len(sq) THEN acc
+  ELSE LET r == ReportOne(1, sq[k], t, acc.lc)
+       IN  EvalSeq(sq, k + 1, t, [pass |-> IF r.ok THEN acc.pass \cup {sq[k]} ELSE acc.pass, lc |-> r.lc])
+
+\* iteration orders that can make a difference: only OnContentChange carries state from one window to the next
+Orders(S) == IF Has("change") THEN SetToSeqs(S) ELSE {SetToSeq(S)}
+
+\* every possible outcome of one add_to_window(id, t): new active set, app_time, last_change and the report (<<>> = none)
+AddOutcomes(id, t) ==
+  LET scoped  == AfterScope(t)
+      updated == {[w EXCEPT !.items = AddItem(@, id, t)] : w \in {v \in scoped : v.open <= t /\ t < v.close}}
+      kept    == IF FixEvict THEN {v \in scoped : v.open > t} ELSE {}
+  IN  {LET ev == EvalSeq(ord, 1, t, [pass |-> {}, lc |-> lastChange])
+       IN  IF ev.pass # {} /\ t > appTime
+           THEN LET mx == CHOOSE w \in ev.pass : \A v \in ev.pass : v.close <= w.close
+                IN  [active |-> updated \cup kept, appTime |-> t, lc |-> ev.lc,
+                     report |-> <<[idx |-> Len(stream) + 1, ts |-> t, close |-> mx.close, items |-> mx.items]>>]
+           ELSE [active |-> updated \cup kept, appTime |-> appTime, lc |-> ev.lc, report |-> <<>>]
+         : ord \in Orders(scoped)}
+
+Apply(id, t, o) ==
+  /\ stream' = Append(stream, t) /\ ids' = Append(ids, id)
+  /\ active' = o.active /\ appTime' = o.appTime /\ lastChange' = o.lc
+  /\ fired' = fired \o o.report
+  /\ UNCHANGED <<width, slide, strat, flushed>>
+
+Add(id, t) ==
   /\ Len(stream) < MaxLen
   /\ IF stream = <<>> THEN TRUE ELSE t >= stream[Len(stream)]
-  /\ LET id      == Len(stream) + 1
-         scoped  == AfterScope(t)
-         updated == {[w EXCEPT !.items = @ \cup {<<id, t>>}] : w \in {v \in scoped : v.open <= t /\ t < v.close}}
-         kept    == IF FixEvict THEN {v \in scoped : v.open > t} ELSE {}
-         cand    == {w \in scoped : Reportable(w, t)}
-     IN  /\ stream' = Append(stream, t)
-         /\ active' = updated \cup kept
-         /\ IF cand # {} /\ t > appTime
-              THEN LET mx == CHOOSE w \in cand : \A v \in cand : v.close <= w.close
-                   IN  /\ appTime' = t
-                       /\ fired' = Append(fired, [idx |-> id, ts |-> t, close |-> mx.close, items |-> mx.items])
-              ELSE UNCHANGED <<appTime, fired>>
-  /\ UNCHANGED <<width, slide, ne, flushed>>
+  /\ \E o \in AddOutcomes(id, t) : Apply(id, t, o)
 
 \* flush() (called by RSPEngine::stop): one final report holding the merged contents of all windows that are still
 \* active, if there is any item in them.  Not a window report in the sense of C09 (its content is not one interval);
@@ -62,36 +106,54 @@ Flush ==
   /\ flushed = <<>> /\ stream # <<>>
   /\ LET merged == UNION {w.items : w \in active}
      IN  flushed' = IF merged = {} THEN <<[items |-> {}, sent |-> FALSE]>> ELSE <<[items |-> merged, sent |-> TRUE]>>
-  /\ UNCHANGED <<width, slide, ne, active, appTime, stream, fired>>
+  /\ UNCHANGED <<width, slide, strat, active, appTime, lastChange, stream, ids, fired>>
 
-Init == /\ width \in Widths /\ slide \in Slides /\ ne \in NeModes
-        /\ active = {} /\ appTime = 0 /\ stream = <<>> /\ fired = <<>> /\ flushed = <<>>
+Init == /\ width \in Widths /\ slide \in Slides /\ strat \in Strategies
+        /\ active = {} /\ appTime = 0 /\ lastChange = <<>> /\ stream = <<>> /\ ids = <<>> /\ fired = <<>> /\ flushed = <<>>
 
-Next == (flushed = <<>> /\ \E t \in 0..MaxTs : Add(t)) \/ Flush
+\* in the exhaustive instances every push is a new item
+Next == (flushed = <<>> /\ \E t \in 0..MaxTs : Add(Len(stream) + 1, t)) \/ Flush
 Spec == Init /\ [][Next]_vars
 
 ---------------------------------------------------------------------------
 (* Requirement (C09), stated on the ghost variables only.                  *)
 
-ItemsIn(lo, hi) == {<<i, stream[i]>> : i \in {j \in 1..Len(stream) : lo <= stream[j] /\ stream[j] < hi}}
+\* items (each once, with its latest in-interval timestamp) among the first n pushes with timestamp in [lo, hi)
+ItemsBefore(lo, hi, n) ==
+  LET occ == {j \in 1..n : lo <= stream[j] /\ stream[j] < hi}
+  IN  {<<i, MaxOf({stream[j] : j \in {k \in occ : ids[k] = i}})>> : i \in {ids[j] : j \in occ}}
+ItemsIn(lo, hi) == ItemsBefore(lo, hi, Len(stream))
 
+\* the reported content is one aligned interval, as far as the stream had come when the report was made (a report is
+\* made before the triggering item is added); with OnWindowClose the interval is closed, hence complete.
+\* OnContentChange is the exception (model and code): a closed window that this strategy held back is evicted, re-created
+\* empty by the next event with the same timestamp and may then be reported - nothing foreign, but items missing.  The
+\* engine never configures this strategy; C09 is claimed for lists without it.
 ContentExact ==
   \A k \in 1..Len(fired) :
      LET f == fired[k] IN
        /\ f.close % slide = 0
-       /\ f.close <= f.ts
-       /\ f.items = ItemsIn(f.close - width, f.close)
+       /\ (HasClose => f.close <= f.ts)
+       /\ f.items \subseteq ItemsBefore(f.close - width, f.close, f.idx - 1)
+       /\ (~Has("change") => f.items = ItemsBefore(f.close - width, f.close, f.idx - 1))
+       /\ (HasClose /\ ~Has("change") => f.items = ItemsIn(f.close - width, f.close))
+
+\* what the individual strategies promise about every report
+StrategyPost ==
+  \A k \in 1..Len(fired) : \A i \in 1..Len(strat) :
+     /\ (strat[i][1] = "periodic" => fired[k].ts % strat[i][2] = 0)
+     /\ (strat[i][1] = "nonempty" => fired[k].items # {})
 
 Monotone ==
   \A k \in 1..(Len(fired) - 1) :
      /\ fired[k].ts < fired[k + 1].ts
-     /\ fired[k].close <= fired[k + 1].close
+     /\ (HasClose => fired[k].close <= fired[k + 1].close)
 
 Dense == \A i \in 1..(Len(stream) - 1) : stream[i + 1] - stream[i] <= slide
 
 \* every interval that closes while the stream runs is reported exactly once
 ExactlyOnce ==
-  (Len(stream) >= 1 /\ Dense) =>
+  (PlainClose /\ Len(stream) >= 1 /\ Dense) =>
      \A c \in (stream[1] + 1)..stream[Len(stream)] :
         (c % slide = 0 /\ (ne => ItemsIn(c - width, c) # {})) =>
             Cardinality({k \in 1..Len(fired) : fired[k].close = c}) = 1
